@@ -565,3 +565,8 @@ package cisco
 //vc:  assert[C07] at "s.markNeeded(s.a.lookup[prefix][name])" @referencedObjectOfThatNameProtected prefix == c.typ.ref[i] && name == c.ref[i]
 //vc:  invariant[C07] 2 "for i, name := range c.ref" @everyReferenceFollowed rangeindex >= 0 ==> lastRefMarked == rangeindex
 //vc:  assert[C07] at "s.markNeeded(c.sub)" @subCommandsProtected arg1 == c.sub
+
+// dstOfRoute: the VRF of a route is a word of the route line, taken verbatim
+// (VRF names are case sensitive: PROD and prod are different VRFs).
+//vc:func dstOfRoute
+//vc:  ensures[C14,C02] @vrfNameTakenVerbatim result.vrf == "" || (exists k int :: 0 <= k && k < splitCount(c.parsed, " ") && result.vrf == splitPart(c.parsed, " ", k))
